@@ -25,6 +25,11 @@ UNIT = Unit(
     prelude=["core.rs", "raw.rs", "iter.rs", "crypto.rs", "state_abs.rs", "num.rs", "melswap.rs"],
     lemmas=["sums.rs", "iterlem.rs", "coinsview.rs", "tips.rs", "apply.rs", "stateinv.rs", "microergs.rs", "chaininv.rs", "chainlem.rs", "mint.rs"],
     items=[
+        Fn(DEP_MELSWAP, "new_empty", impl="PoolState", mode="assume", **ps_new_empty()),
+        Fn(DEP_MELSWAP, "swap_many", impl="PoolState", mode="assume", **ps_swap_many()),
+        Fn(DEP_MELSWAP, "deposit", impl="PoolState", mode="assume", **ps_deposit()),
+        Fn(DEP_MELSWAP, "withdraw", impl="PoolState", mode="assume", **ps_withdraw()),
+        Fn(DEP_MELSWAP, "implied_price", impl="PoolState", mode="assume", **ps_implied_price()),
         TypeItem(S, "struct", "UnsealedState"),
         Raw("use num::{BigInt, BigRational, rational::Ratio};"),
         Fn(C_, "get_coin", impl="CoinMapping", mode="assume", **cm_get_coin()),
